@@ -91,9 +91,9 @@ def build():
     P18, P19, PB = ["C18"], ["C19"], ["C18", "C19"]
     UNCH = ["NODES == old(NODES)", "PID == old(PID)", "PF == old(PF)", "PI == old(PI)", "XP == old(XP)"]
     A(Contract(f"{LM}:AwareASTNode.get_child_nodes", params={"self": "Ref"}, returns="Seq[Ref]", props=PB, trusted=True, globals=G,
-               trusted_reason="definition of lkids (reflection over dataclass fields; bounded-checked by rt.c20 / rt.c18)", ensures=["result == lkids(self)"] + UNCH))
+               trusted_reason="proved in contracts.legacy_children: the flattening of the child fields in field order (lkids_def), for well-typed children", ensures=["result == lkids(self)"] + UNCH))
     A(Contract(f"{LM}:AwareASTNode.get_child_nodes_with_field", params={"self": "Ref"}, returns="Seq[ChildPos]", props=PB, trusted=True, globals=G,
-               trusted_reason="definition of lkidsf (reflection over dataclass fields)", ensures=["result == lkidsf(self)"] + UNCH))
+               trusted_reason="proved in contracts.legacy_children: the same nodes with field and index (lkidsf_def; lemma nodes-of-positions)", ensures=["result == lkidsf(self)"] + UNCH))
     # ---- lookups ---------------------------------------------------------------------------------------------------------
     A(Contract(f"{LM}:AwareASTNode.get_any", params={"cls": "py:cls", "id": "str", "default": "Opt[Ref]"}, returns="Opt[Ref]", props=P18, globals=G,
                ensures=["implies(mget(NODES, id) is not None, result == mget(NODES, id))", "implies(mget(NODES, id) is None, result == default)"] + UNCH,
